@@ -1,2 +1,1910 @@
-// Package c10: monitor for property C10 (see DESIGN.md section 2).
+// Package c10: the timed B-tree (embedded/tbtree) equals a multi-version
+// ordered map; snapshots are immutable; flush, restart and compaction preserve
+// the content. See DESIGN.md section 2, C10.
+//
+// PRNG sequences of writer operations (BulkInsert, Insert, IncreaseTs,
+// FlushWith, Sync, Compact, Close/reopen) interleaved with reads on the tree,
+// on snapshots, on readers and history readers. The oracle is kvmodel: the
+// tree is compared with the model's current state, every snapshot with the
+// model state frozen at snapshot.Ts(); after every mutation a sample of queries
+// is repeated on every open snapshot.
 package c10
+
+import (
+	"bytes"
+	"errors"
+	"fmt"
+	"io"
+	"math/rand/v2"
+	"os"
+	"path/filepath"
+	"regexp"
+	"runtime"
+	"strconv"
+	"strings"
+	"sync"
+	"sync/atomic"
+	"time"
+
+	"github.com/codenotary/immudb/embedded/cache"
+	"github.com/codenotary/immudb/embedded/logger"
+	"github.com/codenotary/immudb/embedded/tbtree"
+	"github.com/prometheus/client_golang/prometheus"
+	dto "github.com/prometheus/client_model/go"
+
+	"verifharness/internal/fw"
+	"verifharness/internal/kvmodel"
+)
+
+func init() { fw.RegisterMonitor("C10", "exploration", Run) }
+
+// ---------------------------------------------------------------- depth probe
+
+// The tree does not expose its depth; it publishes it in the gauge
+// immudb_btree_depth{id=<path>} on every insertion. The collector is
+// unexported, so it is recovered from the default registry.
+var (
+	depthOnce sync.Once
+	depthVec  *prometheus.GaugeVec
+)
+
+func depthOf(path string) int {
+	depthOnce.Do(func() {
+		gv := prometheus.NewGaugeVec(prometheus.GaugeOpts{Name: "immudb_btree_depth", Help: "Btree depth"}, []string{"id"})
+		err := prometheus.Register(gv)
+		if err == nil {
+			prometheus.Unregister(gv)
+			return
+		}
+		var are prometheus.AlreadyRegisteredError
+		if errors.As(err, &are) {
+			depthVec, _ = are.ExistingCollector.(*prometheus.GaugeVec)
+		}
+	})
+	if depthVec == nil {
+		return -1
+	}
+	g, err := depthVec.GetMetricWithLabelValues(path)
+	if err != nil {
+		return -1
+	}
+	var m dto.Metric
+	if g.Write(&m) != nil || m.Gauge == nil {
+		return -1
+	}
+	return int(m.Gauge.GetValue())
+}
+
+// ---------------------------------------------------------------- configuration
+
+type cfg struct {
+	MaxKey, MaxVal, NodeSize       int
+	CacheSize                      int
+	FlushThld, SyncThld, MaxBuf    int
+	CleanupPct                     float32
+	MaxSnaps, CompThld, FileSize   int
+	Renew, DelayComp               time.Duration
+	PoolSize                       int
+	NodesFiles, HistFiles, CLFiles int
+}
+
+func requiredNodeSize(k, v int) int {
+	a, b := 2*(29+k), 31+k+v
+	if a < b {
+		return b
+	}
+	return a
+}
+
+func pick[T any](r *rand.Rand, xs ...T) T { return xs[r.IntN(len(xs))] }
+
+func genCfg(r *rand.Rand) cfg {
+	var cf cfg
+	cf.MaxKey = pick(r, 2, 3, 4, 6, 8, 12, 16)
+	cf.MaxVal = pick(r, 1, 2, 4, 8, 16, 40)
+	cf.NodeSize = requiredNodeSize(cf.MaxKey, cf.MaxVal) + pick(r, 0, 0, 0, 1, 16, 64, 300)
+	cf.PoolSize = pick(r, 6, 24, 80, 200, 400)
+	cf.tune(r)
+	// history reads fetch 4 KiB at a time: files of ~100 bytes cost dozens of opens per read, so they are rare
+	cf.FileSize = pick(r, 512, 1024, 2048, 4096, 4096, 1<<16, 1<<20, 1<<20)
+	if r.IntN(20) == 0 {
+		cf.FileSize = pick(r, 96, 200)
+	}
+	return cf
+}
+
+// tune (re)draws the options that may change from one opening to the next.
+func (cf *cfg) tune(r *rand.Rand) {
+	cf.CacheSize = pick(r, 1, cf.NodeSize, 2*cf.NodeSize, 3*cf.NodeSize, 4*cf.NodeSize, 64*cf.NodeSize)
+	cf.FlushThld = pick(r, 1, 2, 3, 7, 25, 100000)
+	cf.SyncThld = cf.FlushThld * pick(r, 1, 2, 10, 1000)
+	cf.MaxBuf = pick(r, 1, 40, 400, 1<<22)
+	cf.CleanupPct = pick(r, float32(0), 0, 0.5, 10, 50, 100)
+	cf.MaxSnaps = pick(r, 1, 2, 3, 5, 100)
+	cf.CompThld = pick(r, 1, 1, 2, 3)
+	cf.Renew = pick(r, time.Duration(0), time.Nanosecond, time.Hour)
+	cf.DelayComp = pick(r, time.Duration(0), time.Millisecond)
+	cf.NodesFiles = pick(r, 1, 2, 10)
+	cf.HistFiles = pick(r, 1, 3)
+	cf.CLFiles = pick(r, 1, 2)
+}
+
+func (cf cfg) opts() *tbtree.Options {
+	return tbtree.DefaultOptions().
+		WithLogger(logger.NewSimpleLoggerWithLevel("c10", io.Discard, logger.LogError)).
+		WithMaxKeySize(cf.MaxKey).WithMaxValueSize(cf.MaxVal).WithMaxNodeSize(cf.NodeSize).
+		WithCacheSize(cf.CacheSize).
+		WithFlushThld(cf.FlushThld).WithSyncThld(cf.SyncThld).WithMaxBufferedDataSize(cf.MaxBuf).
+		WithCleanupPercentage(cf.CleanupPct).WithMaxActiveSnapshots(cf.MaxSnaps).
+		WithCompactionThld(cf.CompThld).WithFileSize(cf.FileSize).
+		WithRenewSnapRootAfter(cf.Renew).WithDelayDuringCompaction(cf.DelayComp).
+		WithNodesLogMaxOpenedFiles(cf.NodesFiles).WithHistoryLogMaxOpenedFiles(cf.HistFiles).WithCommitLogMaxOpenedFiles(cf.CLFiles)
+}
+
+// ---------------------------------------------------------------- sequence state
+
+type kvReader interface {
+	Get(key []byte) ([]byte, uint64, uint64, error)
+	GetBetween(key []byte, initialTs, finalTs uint64) ([]byte, uint64, uint64, error)
+	History(key []byte, offset uint64, descOrder bool, limit int) ([]tbtree.TimedValue, uint64, error)
+	GetWithPrefix(prefix, neq []byte) ([]byte, []byte, uint64, uint64, error)
+}
+
+const (
+	modeRead = iota
+	modeHistory
+	modeBetween
+)
+
+type rdState struct {
+	rd       *tbtree.Reader
+	spec     tbtree.ReaderSpec
+	shape    string
+	mode     int
+	iTs, fTs uint64
+	exp      []kvmodel.Entry
+	pos      int
+	resets   int
+}
+
+type snapState struct {
+	s       *tbtree.Snapshot
+	ts0     uint64
+	frozen  *kvmodel.Model // state at ts0 plus local writes
+	readers []*rdState
+	stale   bool // the tree was mutated after this snapshot was taken
+	depth   int
+	id      int
+}
+
+type seq struct {
+	c    *fw.Ctx
+	r    *rand.Rand
+	id   int
+	dir  string
+	cf   cfg
+	t    *tbtree.TBtree
+	m    *kvmodel.Model
+	pool [][]byte
+
+	snaps     []*snapState
+	snapSeq   int
+	compactTs uint64 // timestamp reported by the last successful Compact since the tree was opened
+	valCtr    uint64
+	depth     int
+	maxDepth  int
+	conc      bool        // thorough tier: reader goroutines and background compaction
+	dead      atomic.Bool // a violation was recorded: the sequence stops
+	held      int         // snapshots lent to reader goroutines (burst)
+
+	logMu sync.Mutex
+	log   []string
+}
+
+func (s *seq) logf(f string, a ...any) {
+	s.logMu.Lock()
+	s.log = append(s.log, fmt.Sprintf(f, a...))
+	s.logMu.Unlock()
+}
+
+func (s *seq) violation(sig, detail string) {
+	s.logMu.Lock()
+	ops := strings.Join(s.log, "\n")
+	s.logMu.Unlock()
+	s.dead.Store(true)
+	s.c.Violation(sig, fmt.Sprintf("sequence %d (%+v): %s", s.id, s.cf, detail), map[string][]byte{
+		"ops.txt":    []byte(ops + "\n"),
+		"config.txt": []byte(fmt.Sprintf("sequence=%d\n%+v\nrerun: VERIF_SEED=%d VERIF_C10_SEQ=%d ./check C10 --tier %s\n", s.id, s.cf, s.c.Seed, s.id, s.c.Tier)),
+	})
+}
+
+// guard runs f; a panic inside immudb becomes a violation named after the panicking frame.
+func (s *seq) guard(what string, f func()) bool {
+	panicked, sig, text := fw.Guard(f)
+	if panicked {
+		s.violation(panicSig(sig, text), what+": "+text)
+		return false
+	}
+	return true
+}
+
+var immudbFrame = regexp.MustCompile(`(?m)^github\.com/codenotary/immudb/(\S+?)\((?:0x|\{|\)|\.\.\.|[0-9])`)
+
+// panicSig is "pkg.Func/kind": the first immudb frame of the stack (methods with
+// pointer receivers included, e.g. embedded/tbtree.(*leafNode).writeTo) and the
+// panic kind computed by the framework.
+func panicSig(fwSig, text string) string {
+	kind := fwSig[strings.LastIndex(fwSig, "/")+1:]
+	for _, m := range immudbFrame.FindAllStringSubmatch(text, -1) {
+		if !strings.Contains(m[1], "/verifhook.") {
+			return m[1] + "/" + kind
+		}
+	}
+	return fwSig
+}
+
+func hx(b []byte) string {
+	if b == nil {
+		return "nil"
+	}
+	return fmt.Sprintf("%x", b)
+}
+
+// ---------------------------------------------------------------- generators
+
+var alphabet = []byte{0x00, 0x01, 'a', 'b', 0xFE, 0xFF}
+
+func (s *seq) rawKey(maxLen int) []byte {
+	n := 1 + s.r.IntN(maxLen)
+	if s.r.IntN(4) == 0 {
+		n = maxLen
+	}
+	k := make([]byte, n)
+	for i := range k {
+		k[i] = alphabet[s.r.IntN(len(alphabet))]
+	}
+	return k
+}
+
+func (s *seq) buildPool() {
+	mk := s.cf.MaxKey
+	s.pool = append(s.pool, bytes.Repeat([]byte{0xFF}, mk), []byte{0x00}, []byte{0xFF})
+	for len(s.pool) < s.cf.PoolSize {
+		switch s.r.IntN(4) {
+		case 0, 1:
+			s.pool = append(s.pool, s.rawKey(mk))
+		case 2: // extension of an existing key (shared prefixes)
+			k := s.pool[s.r.IntN(len(s.pool))]
+			if len(k) < mk {
+				e := append(append([]byte{}, k...), s.rawKey(mk-len(k))...)
+				s.pool = append(s.pool, e)
+			}
+		case 3: // prefix of an existing key
+			k := s.pool[s.r.IntN(len(s.pool))]
+			s.pool = append(s.pool, append([]byte{}, k[:1+s.r.IntN(len(k))]...))
+		}
+	}
+}
+
+func (s *seq) poolKey() []byte { return s.pool[s.r.IntN(len(s.pool))] }
+
+// someKey: mostly a pool key (present or not), sometimes a neighbour or a random key.
+func (s *seq) someKey() []byte {
+	switch s.r.IntN(10) {
+	case 0:
+		return s.rawKey(s.cf.MaxKey)
+	case 1:
+		k := append([]byte{}, s.poolKey()...)
+		switch s.r.IntN(3) {
+		case 0:
+			k[len(k)-1]++
+		case 1:
+			k[len(k)-1]--
+		case 2:
+			if len(k) < s.cf.MaxKey {
+				k = append(k, 0)
+			}
+		}
+		return k
+	}
+	return s.poolKey()
+}
+
+func (s *seq) value() []byte {
+	s.valCtr++
+	n := 1 + s.r.IntN(s.cf.MaxVal)
+	if s.r.IntN(5) == 0 {
+		n = s.cf.MaxVal
+	}
+	v := make([]byte, n)
+	x := s.valCtr
+	for i := range v {
+		v[i] = byte(x) | 1 // never all-zero, position dependent
+		x = x>>7 + uint64(i)*131
+	}
+	v[0] = byte(s.valCtr)
+	return v
+}
+
+// someTs: a timestamp around the interesting ones of the given view.
+func (s *seq) someTs(top uint64) uint64 {
+	switch s.r.IntN(8) {
+	case 0:
+		return 0
+	case 1:
+		return top + 1 + uint64(s.r.IntN(3))
+	case 2:
+		return top
+	}
+	return uint64(s.r.Int64N(int64(top) + 1))
+}
+
+// ---------------------------------------------------------------- checks on single queries
+
+type query struct {
+	kind   int // 0 Get, 1 GetBetween, 2 History, 3 GetWithPrefix
+	key    []byte
+	neq    []byte
+	i, f   uint64
+	offset uint64
+	desc   bool
+	limit  int
+}
+
+func (q query) String() string {
+	switch q.kind {
+	case 0:
+		return fmt.Sprintf("Get(%s)", hx(q.key))
+	case 1:
+		return fmt.Sprintf("GetBetween(%s,%d,%d)", hx(q.key), q.i, q.f)
+	case 2:
+		return fmt.Sprintf("History(%s,off=%d,desc=%v,limit=%d)", hx(q.key), q.offset, q.desc, q.limit)
+	}
+	return fmt.Sprintf("GetWithPrefix(%s,neq=%s)", hx(q.key), hx(q.neq))
+}
+
+func (s *seq) genQuery(r *rand.Rand, v kvmodel.View, top uint64) query {
+	q := query{kind: r.IntN(4)}
+	// the key: drawn with the sequence-independent generator r (reader goroutines have their own)
+	q.key = s.pool[r.IntN(len(s.pool))]
+	if r.IntN(8) == 0 {
+		k := append([]byte{}, q.key...)
+		k[len(k)-1] ^= byte(1 + r.IntN(3))
+		q.key = k
+	}
+	switch q.kind {
+	case 1:
+		q.i = tsNear(r, top)
+		q.f = tsNear(r, top)
+		if r.IntN(3) > 0 && q.i > q.f {
+			q.i, q.f = q.f, q.i
+		}
+		// bias towards windows that end below the newest version of the key
+		if ver, _, ok := v.Get(q.key); ok && r.IntN(2) == 0 && ver.Ts > 1 {
+			q.f = uint64(r.Int64N(int64(ver.Ts)))
+			if q.i > q.f {
+				q.i = uint64(r.Int64N(int64(q.f) + 1))
+			}
+		}
+	case 2:
+		_, n, _ := v.Get(q.key)
+		q.offset = uint64(r.IntN(int(n) + 3))
+		if r.IntN(3) == 0 {
+			q.offset = 0
+		}
+		q.desc = r.IntN(2) == 0
+		q.limit = pick(r, 1, 1, 2, 3, 5, 100)
+		if r.IntN(40) == 0 {
+			q.limit = pick(r, 0, -1)
+		}
+	case 3:
+		// prefix: a prefix of a pool key, or the key itself
+		if r.IntN(3) > 0 {
+			q.key = q.key[:1+r.IntN(len(q.key))]
+		}
+		if r.IntN(12) == 0 {
+			q.key = nil
+		}
+		// neq is restricted to the unambiguous choices: none, the prefix itself,
+		// or something below the prefix ("first key with the prefix other than neq").
+		switch r.IntN(4) {
+		case 0:
+			q.neq = q.key
+		case 1:
+			if len(q.key) > 1 {
+				q.neq = q.key[:len(q.key)-1]
+			}
+		}
+	}
+	return q
+}
+
+func tsNear(r *rand.Rand, top uint64) uint64 {
+	switch r.IntN(8) {
+	case 0:
+		return 0
+	case 1:
+		return top + 1 + uint64(r.IntN(3))
+	case 2:
+		return top
+	}
+	return uint64(r.Int64N(int64(top) + 1))
+}
+
+func errClass(err error) string {
+	switch {
+	case err == nil:
+		return "ok"
+	case errors.Is(err, tbtree.ErrKeyNotFound):
+		return "key-not-found"
+	case errors.Is(err, tbtree.ErrNoMoreEntries):
+		return "no-more-entries"
+	case errors.Is(err, tbtree.ErrOffsetOutOfRange):
+		return "offset-out-of-range"
+	case errors.Is(err, tbtree.ErrIllegalArguments):
+		return "illegal-arguments"
+	case errors.Is(err, tbtree.ErrAlreadyClosed):
+		return "already-closed"
+	case errors.Is(err, tbtree.ErrReadersNotClosed):
+		return "readers-not-closed"
+	case errors.Is(err, tbtree.ErrSnapshotsNotClosed):
+		return "snapshots-not-closed"
+	case errors.Is(err, tbtree.ErrorToManyActiveSnapshots):
+		return "too-many-snapshots"
+	case errors.Is(err, tbtree.ErrCompactionThresholdNotReached):
+		return "compaction-thld"
+	case errors.Is(err, tbtree.ErrorMaxKeySizeExceeded):
+		return "max-key-size"
+	case errors.Is(err, tbtree.ErrorMaxValueSizeExceeded):
+		return "max-value-size"
+	}
+	return "other-error"
+}
+
+// unexp names an error that the model does not allow at this point. The file
+// handle cache of multiapp leaking its own "key not found" gets a name of its own.
+func unexp(err error) string {
+	if errors.Is(err, cache.ErrKeyNotFound) {
+		return "unexpected-error/cache-key-not-found"
+	}
+	return "unexpected-error"
+}
+
+// checkQuery runs q on rd and compares it with view. target names the object
+// ("tree", "snapshot", "syncsnapshot"), phase qualifies the moment ("", "stale",
+// "reopen", "compact-reopen"). It returns false when a violation was recorded.
+func (s *seq) checkQuery(target, phase string, depth int, rd kvReader, v kvmodel.View, q query) bool {
+	ph := ""
+	if phase != "" {
+		ph = "@" + phase
+	}
+	var opName, class, detail string
+	ok := s.guard(target+"."+q.String(), func() {
+		switch q.kind {
+		case 0:
+			opName = "Get"
+			val, ts, hc, err := rd.Get(q.key)
+			ver, n, found := v.Get(q.key)
+			switch {
+			case !found:
+				if !errors.Is(err, tbtree.ErrKeyNotFound) {
+					class, detail = "missing-error", fmt.Sprintf("key absent in the model, got value=%s ts=%d hc=%d err=%v", hx(val), ts, hc, err)
+				}
+			case err != nil:
+				class, detail = unexp(err), fmt.Sprintf("model has %s@%d (%d versions), got err=%v", hx(ver.Value), ver.Ts, n, err)
+			case !bytes.Equal(val, ver.Value) || ts != ver.Ts:
+				class, detail = "wrong-version", fmt.Sprintf("model %s@%d, got %s@%d", hx(ver.Value), ver.Ts, hx(val), ts)
+			case hc != n:
+				class, detail = "wrong-hc", fmt.Sprintf("model has %d versions, got hc=%d", n, hc)
+			}
+			class0 := errClass(err)
+			if found && n > 1 {
+				class0 += "/multi"
+			}
+			s.c.Distinct(fmt.Sprintf("d%d/%s.Get%s/%s", depth, target, ph, class0))
+		case 1:
+			opName = "GetBetween"
+			val, ts, hc, err := rd.GetBetween(q.key, q.i, q.f)
+			_, _, present := v.Get(q.key)
+			ver, rev, found := v.GetBetween(q.key, q.i, q.f)
+			shape := "in"
+			switch {
+			case !present:
+				shape = "absent"
+				if !errors.Is(err, tbtree.ErrKeyNotFound) {
+					class, detail = "missing-error", fmt.Sprintf("key absent in the model, got value=%s ts=%d hc=%d err=%v", hx(val), ts, hc, err)
+				}
+			case q.i > q.f:
+				shape = "inverted"
+				if !errors.Is(err, tbtree.ErrIllegalArguments) {
+					class, detail = "missing-error", fmt.Sprintf("initialTs > finalTs must be rejected, got value=%s ts=%d err=%v", hx(val), ts, err)
+				}
+			case !found:
+				shape = "none-in-window"
+				if !errors.Is(err, tbtree.ErrKeyNotFound) {
+					class, detail = "missing-error", fmt.Sprintf("no version of the key in [%d,%d], got value=%s ts=%d hc=%d err=%v", q.i, q.f, hx(val), ts, hc, err)
+				}
+			case err != nil:
+				class, detail = unexp(err), fmt.Sprintf("model %s@%d rev %d, got err=%v", hx(ver.Value), ver.Ts, rev, err)
+			case !bytes.Equal(val, ver.Value) || ts != ver.Ts:
+				class, detail = "wrong-version", fmt.Sprintf("model %s@%d, got %s@%d", hx(ver.Value), ver.Ts, hx(val), ts)
+			case hc != rev:
+				class, detail = "wrong-hc", fmt.Sprintf("model revision %d, got hc=%d", rev, hc)
+			}
+			if found {
+				if _, n, _ := v.Get(q.key); rev < n {
+					shape = "older-version"
+				}
+			}
+			s.c.Distinct(fmt.Sprintf("d%d/%s.GetBetween%s/%s/%s", depth, target, ph, shape, errClass(err)))
+		case 2:
+			opName = "History"
+			if q.desc {
+				opName = "History/desc"
+			}
+			tvs, hc, err := rd.History(q.key, q.offset, q.desc, q.limit)
+			exp, n, st := v.History(q.key, q.offset, q.desc, q.limit)
+			shape := "page"
+			switch {
+			case q.limit < 1:
+				shape = "bad-limit"
+				if !errors.Is(err, tbtree.ErrIllegalArguments) {
+					class, detail = "missing-error", fmt.Sprintf("limit %d must be rejected, got %d values err=%v", q.limit, len(tvs), err)
+				}
+			case st == kvmodel.HistoryKeyNotFound:
+				shape = "absent"
+				if !errors.Is(err, tbtree.ErrKeyNotFound) {
+					class, detail = "missing-error", fmt.Sprintf("key absent in the model, got %d values hc=%d err=%v", len(tvs), hc, err)
+				}
+			case st == kvmodel.HistoryNoMore:
+				shape = "offset=count"
+				if !errors.Is(err, tbtree.ErrNoMoreEntries) {
+					class, detail = "missing-error", fmt.Sprintf("offset equals the %d versions, got %d values err=%v", n, len(tvs), err)
+				}
+			case st == kvmodel.HistoryOutOfRange:
+				shape = "offset>count"
+				if !errors.Is(err, tbtree.ErrOffsetOutOfRange) {
+					class, detail = "missing-error", fmt.Sprintf("offset beyond the %d versions, got %d values err=%v", n, len(tvs), err)
+				}
+			case err != nil:
+				class, detail = unexp(err), fmt.Sprintf("model has %d versions, got err=%v", n, err)
+			default:
+				if d := cmpVersions(exp, tvs); d != "" {
+					class, detail = "wrong-versions", d
+				} else if hc != n {
+					class, detail = "wrong-hc", fmt.Sprintf("model has %d versions, got hCount=%d", n, hc)
+				}
+				if q.offset > 0 {
+					shape = "page+offset"
+				}
+				if uint64(len(exp)) < n {
+					shape += "/partial"
+				}
+			}
+			s.c.Distinct(fmt.Sprintf("d%d/%s.History%s/desc=%v/%s/%s", depth, target, ph, q.desc, shape, errClass(err)))
+		case 3:
+			opName = "GetWithPrefix"
+			key, val, ts, hc, err := rd.GetWithPrefix(q.key, q.neq)
+			ek, ver, n, found := v.GetWithPrefix(q.key, q.neq)
+			switch {
+			case !found:
+				if !errors.Is(err, tbtree.ErrKeyNotFound) {
+					class, detail = "missing-error", fmt.Sprintf("no such key in the model, got key=%s value=%s err=%v", hx(key), hx(val), err)
+				}
+			case err != nil:
+				class, detail = unexp(err), fmt.Sprintf("model answers key %s, got err=%v", hx(ek), err)
+			case !bytes.Equal(key, ek):
+				class, detail = "wrong-key", fmt.Sprintf("model answers key %s, got %s", hx(ek), hx(key))
+			case !bytes.Equal(val, ver.Value) || ts != ver.Ts:
+				class, detail = "wrong-version", fmt.Sprintf("key %s: model %s@%d, got %s@%d", hx(ek), hx(ver.Value), ver.Ts, hx(val), ts)
+			case hc != n:
+				class, detail = "wrong-hc", fmt.Sprintf("key %s: model has %d versions, got hc=%d", hx(ek), n, hc)
+			}
+			s.c.Distinct(fmt.Sprintf("d%d/%s.GetWithPrefix%s/neq=%v/%s", depth, target, ph, len(q.neq) > 0, errClass(err)))
+		}
+	})
+	s.c.Eval(1)
+	if !ok {
+		return false
+	}
+	if class != "" {
+		s.violation(fmt.Sprintf("%s.%s/%s%s", target, opName, class, ph), fmt.Sprintf("%s.%s as of ts %d: %s", target, q, v.Bound(), detail))
+		return false
+	}
+	return true
+}
+
+func cmpVersions(exp []kvmodel.Version, got []tbtree.TimedValue) string {
+	if len(exp) != len(got) {
+		return fmt.Sprintf("model has %d versions on this page, got %d (%s vs %s)", len(exp), len(got), showVers(exp), showTVs(got))
+	}
+	for i := range exp {
+		if exp[i].Ts != got[i].Ts || !bytes.Equal(exp[i].Value, got[i].Value) {
+			return fmt.Sprintf("position %d: model %s@%d, got %s@%d (%s vs %s)", i, hx(exp[i].Value), exp[i].Ts, hx(got[i].Value), got[i].Ts, showVers(exp), showTVs(got))
+		}
+	}
+	return ""
+}
+
+func showVers(vs []kvmodel.Version) string {
+	var b strings.Builder
+	for i, v := range vs {
+		if i == 8 {
+			b.WriteString(" …")
+			break
+		}
+		fmt.Fprintf(&b, " %s@%d", hx(v.Value), v.Ts)
+	}
+	return "[" + strings.TrimSpace(b.String()) + "]"
+}
+
+func showTVs(vs []tbtree.TimedValue) string {
+	var b strings.Builder
+	for i, v := range vs {
+		if i == 8 {
+			b.WriteString(" …")
+			break
+		}
+		fmt.Fprintf(&b, " %s@%d", hx(v.Value), v.Ts)
+	}
+	return "[" + strings.TrimSpace(b.String()) + "]"
+}
+
+// ---------------------------------------------------------------- readers
+
+func keyShape(r *rand.Rand, v kvmodel.View, k []byte) string {
+	if len(k) == 0 {
+		return "-"
+	}
+	if _, _, ok := v.Get(k); ok {
+		return "k"
+	}
+	return "x"
+}
+
+func (s *seq) genSpec(r *rand.Rand, v kvmodel.View) (tbtree.ReaderSpec, string) {
+	var sp tbtree.ReaderSpec
+	key := func() []byte {
+		k := s.pool[r.IntN(len(s.pool))]
+		switch r.IntN(8) {
+		case 0:
+			k = append(append([]byte{}, k...), 0)
+			if len(k) > s.cf.MaxKey {
+				k = k[:s.cf.MaxKey]
+			}
+		case 1:
+			k = append([]byte{}, k...)
+			k[len(k)-1] ^= byte(1 + r.IntN(3))
+		case 2:
+			k = k[:1+r.IntN(len(k))]
+		}
+		return k
+	}
+	if r.IntN(10) < 7 {
+		sp.SeekKey = key()
+	}
+	if r.IntN(10) < 5 {
+		sp.EndKey = key()
+		// make the window non-empty more often than not
+		if len(sp.SeekKey) > 0 && r.IntN(4) > 0 {
+			lo, hi := sp.SeekKey, sp.EndKey
+			if bytes.Compare(lo, hi) > 0 {
+				lo, hi = hi, lo
+			}
+			sp.SeekKey, sp.EndKey = lo, hi
+		}
+	}
+	sp.DescOrder = r.IntN(2) == 0
+	if sp.DescOrder && len(sp.SeekKey) > 0 && len(sp.EndKey) > 0 && bytes.Compare(sp.SeekKey, sp.EndKey) < 0 && r.IntN(4) > 0 {
+		sp.SeekKey, sp.EndKey = sp.EndKey, sp.SeekKey
+	}
+	if r.IntN(10) < 4 {
+		p := s.pool[r.IntN(len(s.pool))]
+		sp.Prefix = p[:1+r.IntN(len(p))]
+		if r.IntN(3) == 0 {
+			sp.Prefix = p[:1]
+		}
+	}
+	sp.InclusiveSeek = r.IntN(2) == 0
+	sp.InclusiveEnd = r.IntN(2) == 0
+	sp.IncludeHistory = r.IntN(4) == 0
+	if r.IntN(10) < 3 {
+		sp.Offset = uint64(1 + r.IntN(4))
+		if r.IntN(5) == 0 {
+			sp.Offset = uint64(r.IntN(500))
+		}
+	}
+	off := "0"
+	if sp.Offset > 0 {
+		off = "+"
+	}
+	shape := fmt.Sprintf("seek=%s%v/end=%s%v/pfx=%v/desc=%v/off=%s/hist=%v",
+		keyShape(r, v, sp.SeekKey), sp.InclusiveSeek, keyShape(r, v, sp.EndKey), sp.InclusiveEnd, len(sp.Prefix) > 0, sp.DescOrder, off, sp.IncludeHistory)
+	return sp, shape
+}
+
+func modelSpec(sp tbtree.ReaderSpec) kvmodel.RangeSpec {
+	return kvmodel.RangeSpec{SeekKey: sp.SeekKey, EndKey: sp.EndKey, Prefix: sp.Prefix,
+		InclusiveSeek: sp.InclusiveSeek, InclusiveEnd: sp.InclusiveEnd, Desc: sp.DescOrder, Offset: sp.Offset}
+}
+
+func specString(sp tbtree.ReaderSpec) string {
+	return fmt.Sprintf("{seek=%s incl=%v end=%s incl=%v prefix=%s desc=%v offset=%d history=%v}",
+		hx(sp.SeekKey), sp.InclusiveSeek, hx(sp.EndKey), sp.InclusiveEnd, hx(sp.Prefix), sp.DescOrder, sp.Offset, sp.IncludeHistory)
+}
+
+func (rs *rdState) opName() string {
+	switch rs.mode {
+	case modeHistory:
+		return "Reader.Read+history"
+	case modeBetween:
+		return "Reader.ReadBetween"
+	}
+	return "Reader.Read"
+}
+
+func (rs *rdState) expect(v kvmodel.View) {
+	ms := modelSpec(rs.spec)
+	switch rs.mode {
+	case modeRead:
+		rs.exp = v.Range(ms)
+	case modeHistory:
+		rs.exp = v.RangeHistory(ms)
+	case modeBetween:
+		if rs.iTs > rs.fTs {
+			rs.exp = nil // every key is rejected (initialTs > finalTs): nothing qualifies
+		} else {
+			rs.exp = v.RangeBetween(ms, rs.iTs, rs.fTs)
+		}
+	}
+	rs.pos = 0
+}
+
+// newReader opens a reader on snapshot ss with a PRNG spec; nil if none was opened.
+func (s *seq) newReader(r *rand.Rand, target, phase string, ss *snapState) *rdState {
+	v := ss.frozen.Now()
+	sp, shape := s.genSpec(r, v)
+	rs := &rdState{spec: sp, shape: shape}
+	if sp.IncludeHistory {
+		rs.mode = modeHistory
+	} else if r.IntN(4) == 0 {
+		rs.mode = modeBetween
+		rs.iTs, rs.fTs = tsNear(r, ss.ts0), tsNear(r, ss.ts0)
+		if rs.iTs > rs.fTs && r.IntN(4) > 0 {
+			rs.iTs, rs.fTs = rs.fTs, rs.iTs
+		}
+		if r.IntN(3) == 0 {
+			rs.iTs = 0
+		}
+	}
+	if r.IntN(60) == 0 { // oversized seek key / prefix must be rejected
+		big := bytes.Repeat([]byte{'a'}, s.cf.MaxKey+1)
+		bad := sp
+		if r.IntN(2) == 0 {
+			bad.SeekKey = big
+		} else {
+			bad.Prefix = big
+		}
+		var err error
+		var rd *tbtree.Reader
+		if !s.guard("NewReader(oversized)", func() { rd, err = ss.s.NewReader(bad) }) {
+			return nil
+		}
+		s.c.Eval(1)
+		s.c.Distinct(fmt.Sprintf("d%d/%s.NewReader/oversized/%s", ss.depth, target, errClass(err)))
+		if err == nil {
+			rd.Close()
+			s.violation(target+".NewReader/missing-error", "seek key / prefix longer than MaxKeySize accepted: "+specString(bad))
+		}
+		return nil
+	}
+	var err error
+	if !s.guard("NewReader", func() { rs.rd, err = ss.s.NewReader(sp) }) {
+		return nil
+	}
+	if err != nil {
+		s.violation(target+".NewReader/"+unexp(err), fmt.Sprintf("NewReader(%s): %v", specString(sp), err))
+		return nil
+	}
+	rs.expect(v)
+	return rs
+}
+
+// advance reads n more entries (n < 0: until exhaustion) and compares them with
+// the expected sequence. It returns false when a violation was recorded.
+func (s *seq) advance(target, phase string, ss *snapState, rs *rdState, n int) bool {
+	ph := ""
+	if phase != "" {
+		ph = "@" + phase
+	}
+	op := rs.opName()
+	if rs.resets > 0 {
+		op += "+reset"
+	}
+	for i := 0; n < 0 || i < n; i++ {
+		var k, val []byte
+		var ts, hc uint64
+		var err error
+		if !s.guard(target+"."+op, func() {
+			if rs.mode == modeBetween {
+				k, val, ts, hc, err = rs.rd.ReadBetween(rs.iTs, rs.fTs)
+			} else {
+				k, val, ts, hc, err = rs.rd.Read()
+			}
+		}) {
+			return false
+		}
+		s.c.Eval(1)
+		where := fmt.Sprintf("%s %s between=[%d,%d] on %s as of ts %d, entry %d of %d", op, specString(rs.spec), rs.iTs, rs.fTs, target, ss.ts0, rs.pos, len(rs.exp))
+		if rs.pos >= len(rs.exp) {
+			out := "end"
+			if len(rs.exp) == 0 {
+				out = "empty"
+			}
+			s.c.Distinct(fmt.Sprintf("d%d/%s.%s%s/%s/%s", ss.depth, target, op, ph, rs.shape, out))
+			if !errors.Is(err, tbtree.ErrNoMoreEntries) {
+				s.violation(fmt.Sprintf("%s.%s/extra-entry%s", target, op, ph), fmt.Sprintf("%s: the model has no more entries, got key=%s value=%s ts=%d hc=%d err=%v", where, hx(k), hx(val), ts, hc, err))
+				return false
+			}
+			return true
+		}
+		e := rs.exp[rs.pos]
+		switch {
+		case errors.Is(err, tbtree.ErrNoMoreEntries):
+			s.violation(fmt.Sprintf("%s.%s/missing-entry%s", target, op, ph), fmt.Sprintf("%s: reader ended, the model continues with key=%s %s@%d", where, hx(e.Key), hx(e.Value), e.Ts))
+			return false
+		case err != nil:
+			s.violation(fmt.Sprintf("%s.%s/%s%s", target, op, unexp(err), ph), fmt.Sprintf("%s: %v", where, err))
+			return false
+		case !bytes.Equal(k, e.Key):
+			s.violation(fmt.Sprintf("%s.%s/wrong-key%s", target, op, ph), fmt.Sprintf("%s: model key=%s, got key=%s (%s@%d)", where, hx(e.Key), hx(k), hx(val), ts))
+			return false
+		case !bytes.Equal(val, e.Value) || ts != e.Ts:
+			s.violation(fmt.Sprintf("%s.%s/wrong-version%s", target, op, ph), fmt.Sprintf("%s: key=%s model %s@%d, got %s@%d", where, hx(k), hx(e.Value), e.Ts, hx(val), ts))
+			return false
+		case hc != e.Rev:
+			s.violation(fmt.Sprintf("%s.%s/wrong-hc%s", target, op, ph), fmt.Sprintf("%s: key=%s model revision %d, got hc=%d", where, hx(k), e.Rev, hc))
+			return false
+		}
+		rs.pos++
+		if rs.pos == 1 || rs.pos == len(rs.exp) {
+			s.c.Distinct(fmt.Sprintf("d%d/%s.%s%s/%s/entry", ss.depth, target, op, ph, rs.shape))
+		}
+	}
+	return true
+}
+
+func (s *seq) closeReader(ss *snapState, rs *rdState) bool {
+	var err error
+	if !s.guard("Reader.Close", func() { err = rs.rd.Close() }) {
+		return false
+	}
+	if err != nil {
+		s.violation("snapshot.Reader.Close/"+unexp(err), fmt.Sprintf("closing an open reader: %v", err))
+		return false
+	}
+	for i, x := range ss.readers {
+		if x == rs {
+			ss.readers = append(ss.readers[:i], ss.readers[i+1:]...)
+			break
+		}
+	}
+	return true
+}
+
+// historyReader drives one HistoryReader to exhaustion against the model.
+func (s *seq) historyReader(r *rand.Rand, target, phase string, ss *snapState) bool {
+	ph := ""
+	if phase != "" {
+		ph = "@" + phase
+	}
+	v := ss.frozen.Now()
+	key := s.pool[r.IntN(len(s.pool))]
+	_, n, _ := v.Get(key)
+	spec := &tbtree.HistoryReaderSpec{Key: key, DescOrder: r.IntN(2) == 0, ReadLimit: pick(r, 1, 1, 2, 3, 10)}
+	if r.IntN(3) == 0 {
+		spec.Offset = uint64(r.IntN(int(n) + 2))
+	}
+	var hr *tbtree.HistoryReader
+	var err error
+	if !s.guard("NewHistoryReader", func() { hr, err = ss.s.NewHistoryReader(spec) }) {
+		return false
+	}
+	if err != nil {
+		s.violation(target+".NewHistoryReader/"+unexp(err), fmt.Sprintf("NewHistoryReader(%+v): %v", *spec, err))
+		return false
+	}
+	defer func() { s.guard("HistoryReader.Close", func() { hr.Close() }) }()
+	off := spec.Offset
+	for round := 0; round < 1000; round++ {
+		var tvs []tbtree.TimedValue
+		if !s.guard("HistoryReader.Read", func() { tvs, err = hr.Read() }) {
+			return false
+		}
+		s.c.Eval(1)
+		exp, cnt, st := v.History(key, off, spec.DescOrder, spec.ReadLimit)
+		where := fmt.Sprintf("HistoryReader{key=%s offset=%d desc=%v limit=%d}.Read #%d on %s as of ts %d", hx(key), spec.Offset, spec.DescOrder, spec.ReadLimit, round, target, ss.ts0)
+		s.c.Distinct(fmt.Sprintf("d%d/%s.HistoryReader.Read%s/desc=%v/off=%v/%s", ss.depth, target, ph, spec.DescOrder, spec.Offset > 0, errClass(err)))
+		var want error
+		switch st {
+		case kvmodel.HistoryKeyNotFound:
+			want = tbtree.ErrKeyNotFound
+		case kvmodel.HistoryNoMore:
+			want = tbtree.ErrNoMoreEntries
+		case kvmodel.HistoryOutOfRange:
+			want = tbtree.ErrOffsetOutOfRange
+		}
+		if want != nil {
+			if !errors.Is(err, want) {
+				s.violation(fmt.Sprintf("%s.HistoryReader.Read/missing-error%s", target, ph), fmt.Sprintf("%s: model has %d versions and expects %v, got %d values err=%v", where, cnt, want, len(tvs), err))
+				return false
+			}
+			return true
+		}
+		if err != nil {
+			s.violation(fmt.Sprintf("%s.HistoryReader.Read/%s%s", target, unexp(err), ph), fmt.Sprintf("%s: %v", where, err))
+			return false
+		}
+		if d := cmpVersions(exp, tvs); d != "" {
+			s.violation(fmt.Sprintf("%s.HistoryReader.Read/wrong-versions%s", target, ph), where+": "+d)
+			return false
+		}
+		off += uint64(len(tvs))
+	}
+	return true
+}
+
+// ---------------------------------------------------------------- snapshots
+
+func (ss *snapState) phase() string {
+	if ss.stale {
+		return "stale"
+	}
+	return ""
+}
+
+// probeSnapshot runs n PRNG queries / reader steps on a snapshot.
+func (s *seq) probeSnapshot(r *rand.Rand, ss *snapState, n int, allowNewReaders bool) bool {
+	target := "snapshot"
+	for i := 0; i < n; i++ {
+		switch x := r.IntN(10); {
+		case x < 6:
+			q := s.genQuery(r, ss.frozen.Now(), ss.ts0)
+			if !s.checkQuery(target, ss.phase(), ss.depth, ss.s, ss.frozen.Now(), q) {
+				return false
+			}
+		case x < 8 && len(ss.readers) > 0:
+			rs := ss.readers[r.IntN(len(ss.readers))]
+			if !s.advance(target, ss.phase(), ss, rs, 1+r.IntN(4)) {
+				return false
+			}
+		case allowNewReaders:
+			rs := s.newReader(r, target, ss.phase(), ss)
+			if s.dead.Load() {
+				return false
+			}
+			if rs == nil {
+				continue
+			}
+			ss.readers = append(ss.readers, rs)
+			k := -1
+			if r.IntN(3) == 0 {
+				k = r.IntN(6)
+			}
+			if !s.advance(target, ss.phase(), ss, rs, k) {
+				return false
+			}
+			if (k < 0 || len(ss.readers) > 3) && !s.closeReader(ss, rs) {
+				return false
+			}
+		}
+	}
+	return true
+}
+
+// fullCheck compares the whole content reachable through snapshot ss (every
+// key, every version) with the frozen model, through a full history scan in one
+// direction and a plain scan in the other.
+func (s *seq) fullCheck(target, phase string, ss *snapState) bool {
+	desc := s.r.IntN(2) == 0
+	for _, sp := range []tbtree.ReaderSpec{{IncludeHistory: true, DescOrder: desc}, {DescOrder: !desc}} {
+		rs := &rdState{spec: sp, shape: fmt.Sprintf("full/desc=%v/hist=%v", sp.DescOrder, sp.IncludeHistory)}
+		if sp.IncludeHistory {
+			rs.mode = modeHistory
+		}
+		var err error
+		if !s.guard("NewReader", func() { rs.rd, err = ss.s.NewReader(sp) }) {
+			return false
+		}
+		if err != nil {
+			s.violation(target+".NewReader/"+unexp(err), fmt.Sprintf("NewReader(%s): %v", specString(sp), err))
+			return false
+		}
+		rs.expect(ss.frozen.Now())
+		ok := s.advance(target, phase, ss, rs, -1)
+		s.guard("Reader.Close", func() { rs.rd.Close() })
+		if !ok {
+			return false
+		}
+	}
+	return true
+}
+
+// scanSnapshot walks every node still reachable from the snapshot (one plain
+// scan over all keys): whatever a flush, cleanup or compaction discarded or
+// rewrote underneath an open snapshot shows up here.
+func (s *seq) scanSnapshot(ss *snapState) bool {
+	sp := tbtree.ReaderSpec{DescOrder: s.r.IntN(2) == 0}
+	rs := &rdState{spec: sp, shape: fmt.Sprintf("full/desc=%v/hist=false", sp.DescOrder)}
+	var err error
+	if !s.guard("NewReader", func() { rs.rd, err = ss.s.NewReader(sp) }) {
+		return false
+	}
+	if err != nil {
+		s.violation("snapshot.NewReader/"+unexp(err), fmt.Sprintf("NewReader(%s): %v", specString(sp), err))
+		return false
+	}
+	rs.expect(ss.frozen.Now())
+	ok := s.advance("snapshot", ss.phase(), ss, rs, -1)
+	s.guard("Reader.Close", func() { rs.rd.Close() })
+	return ok
+}
+
+func (s *seq) openSnapshot() {
+	if len(s.snaps) >= 6 { // bound the work done after every mutation
+		if !s.closeSnapshot(s.r.IntN(len(s.snaps)), false) {
+			return
+		}
+	}
+	kind := s.r.IntN(3)
+	req := uint64(0)
+	if kind == 1 {
+		req = s.someTs(s.m.Ts())
+	}
+	var snap *tbtree.Snapshot
+	var err error
+	tsBefore := s.m.Ts()
+	if !s.guard("Snapshot", func() {
+		if kind == 1 {
+			snap, err = s.t.SnapshotMustIncludeTs(req)
+		} else {
+			snap, err = s.t.Snapshot()
+		}
+	}) {
+		return
+	}
+	s.logf("snapshot kind=%d req=%d -> %s", kind, req, errClass(err))
+	s.c.Eval(1)
+	s.c.Distinct(fmt.Sprintf("d%d/tree.Snapshot/req=%v/open=%d/%s", s.depth, req > 0, min(len(s.snaps), 3), errClass(err)))
+	if err != nil {
+		switch {
+		case req > tsBefore:
+			// asking for a future timestamp cannot be satisfied: any error is fine
+		case errors.Is(err, tbtree.ErrorToManyActiveSnapshots) && len(s.snaps)+s.held > 0:
+			// the limit is part of the API (not judged beyond "some snapshot is open")
+		default:
+			s.violation("tree.Snapshot/"+unexp(err), fmt.Sprintf("SnapshotMustIncludeTs(%d) with tree ts %d and %d open snapshots (max %d): %v", req, tsBefore, len(s.snaps), s.cf.MaxSnaps, err))
+		}
+		return
+	}
+	if req > tsBefore {
+		snap.Close()
+		s.violation("tree.Snapshot/future-ts-accepted", fmt.Sprintf("SnapshotMustIncludeTs(%d) succeeded while the tree is at ts %d", req, tsBefore))
+		return
+	}
+	ts0 := snap.Ts()
+	s.snapSeq++
+	ss := &snapState{s: snap, ts0: ts0, depth: s.depth, id: s.snapSeq}
+	s.snaps = append(s.snaps, ss)
+	if ts0 < req || ts0 > tsBefore {
+		s.violation("snapshot.Ts/out-of-bounds", fmt.Sprintf("SnapshotMustIncludeTs(%d) returned a snapshot at ts %d while the tree is at ts %d", req, ts0, tsBefore))
+		return
+	}
+	ss.frozen = s.m.CloneAt(ts0)
+	s.logf("  snapshot #%d ts0=%d", ss.id, ts0)
+	if s.r.IntN(6) == 0 {
+		if !s.fullCheck("snapshot", "", ss) {
+			return
+		}
+	}
+	s.probeSnapshot(s.r, ss, 3, true)
+}
+
+func (s *seq) closeSnapshot(i int, probeBusy bool) bool {
+	ss := s.snaps[i]
+	if probeBusy && len(ss.readers) > 0 {
+		var err error
+		if !s.guard("Snapshot.Close", func() { err = ss.s.Close() }) {
+			return false
+		}
+		s.c.Eval(1)
+		s.c.Distinct("snapshot.Close/readers-open/" + errClass(err))
+		if !errors.Is(err, tbtree.ErrReadersNotClosed) {
+			s.violation("snapshot.Close/readers-open-accepted", fmt.Sprintf("closing a snapshot with %d open readers returned %v", len(ss.readers), err))
+			return false
+		}
+	}
+	for len(ss.readers) > 0 {
+		if !s.closeReader(ss, ss.readers[0]) {
+			return false
+		}
+	}
+	var err error
+	if !s.guard("Snapshot.Close", func() { err = ss.s.Close() }) {
+		return false
+	}
+	s.logf("close snapshot #%d -> %s", ss.id, errClass(err))
+	if err != nil {
+		s.violation("snapshot.Close/"+unexp(err), fmt.Sprintf("closing a snapshot without readers: %v", err))
+		return false
+	}
+	s.snaps = append(s.snaps[:i], s.snaps[i+1:]...)
+	return true
+}
+
+func (s *seq) localSet(ss *snapState) {
+	// readers positioned inside nodes that a local write replaces have no defined
+	// continuation: they are reset afterwards, as the store does.
+	k, v := s.poolKey(), s.value()
+	var err error
+	if !s.guard("Snapshot.Set", func() { err = ss.s.Set(k, v) }) {
+		return
+	}
+	s.logf("snapshot #%d Set(%s,%s) -> %s", ss.id, hx(k), hx(v), errClass(err))
+	s.c.Eval(1)
+	_, n, _ := ss.frozen.Now().Get(k)
+	s.c.Distinct(fmt.Sprintf("d%d/snapshot.Set/existing=%v/%s", ss.depth, n > 0, errClass(err)))
+	if err != nil {
+		s.violation("snapshot.Set/"+unexp(err), fmt.Sprintf("Set(%s,%s): %v", hx(k), hx(v), err))
+		return
+	}
+	ss.frozen.Set(k, v, ss.ts0+1) // a second local write of the same key is a same-timestamp re-insert: no-op
+	for _, rs := range append([]*rdState{}, ss.readers...) {
+		if rs.mode == modeHistory {
+			// Reset does not define what happens to a key whose versions are being listed: reopen
+			if !s.closeReader(ss, rs) {
+				return
+			}
+			continue
+		}
+		if !s.guard("Reader.Reset", func() { err = rs.rd.Reset() }) {
+			return
+		}
+		if err != nil {
+			s.violation("snapshot.Reader.Reset/"+unexp(err), err.Error())
+			return
+		}
+		rs.resets++
+		rs.expect(ss.frozen.Now())
+	}
+	q := query{kind: 0, key: k}
+	s.checkQuery("snapshot", ss.phase(), ss.depth, ss.s, ss.frozen.Now(), q)
+}
+
+// ---------------------------------------------------------------- writer operations
+
+func (s *seq) afterMutation(what string) {
+	if s.dead.Load() {
+		return
+	}
+	var ts uint64
+	if !s.guard("Ts", func() { ts = s.t.Ts() }) {
+		return
+	}
+	s.c.Eval(1)
+	if ts != s.m.Ts() {
+		s.violation("tree.Ts/mismatch", fmt.Sprintf("after %s the tree is at ts %d, the model at %d", what, ts, s.m.Ts()))
+		return
+	}
+	if d := depthOf(s.dir); d > 0 {
+		s.depth = d
+		if d > s.maxDepth {
+			s.maxDepth = d
+		}
+	}
+	for _, ss := range s.snaps {
+		ss.stale = true
+		if !s.probeSnapshot(s.r, ss, 2, true) {
+			return
+		}
+		// now and then, and always after an explicit flush, everything the snapshot pins is read again
+		if (s.r.IntN(8) == 0 || strings.HasPrefix(what, "FlushWith") || what == "Sync" || what == "Compact") && !s.scanSnapshot(ss) {
+			return
+		}
+	}
+}
+
+func (s *seq) genBulk() (bulk []*tbtree.KVT, eff []kvmodel.KVT) {
+	n := 1 + s.r.IntN(4)
+	switch s.r.IntN(10) {
+	case 0:
+		n = 8 + s.r.IntN(40)
+	case 1, 2:
+		n = 1
+	}
+	cur := s.m.Ts()
+	mode := s.r.IntN(4) // 0 all zero, 1 one explicit ts, 2 rising, 3 mixed
+	base := cur + 1 + uint64(s.r.IntN(3))
+	last := map[string]uint64{}
+	for i := 0; i < n; i++ {
+		k := s.poolKey()
+		if i > 0 && s.r.IntN(6) == 0 {
+			k = bulk[s.r.IntN(len(bulk))].K // repeated key
+		}
+		var t uint64
+		switch mode {
+		case 0:
+			t = 0
+		case 1:
+			t = base
+		case 2:
+			t = base + uint64(i/2)
+		case 3:
+			if s.r.IntN(2) == 0 {
+				t = cur + 1 + uint64(s.r.IntN(4))
+			}
+		}
+		e := t
+		if e == 0 {
+			e = cur + 1
+		}
+		// a key may only move forward in time inside a bulk (documented precondition)
+		if l, ok := last[string(k)]; ok && e < l {
+			e, t = l, l
+		}
+		last[string(k)] = e
+		v := s.value()
+		bulk = append(bulk, &tbtree.KVT{K: k, V: v, T: t})
+		eff = append(eff, kvmodel.KVT{K: k, V: v, T: e})
+	}
+	return
+}
+
+func bulkString(b []*tbtree.KVT) string {
+	var sb strings.Builder
+	for i, e := range b {
+		if i > 0 {
+			sb.WriteByte(' ')
+		}
+		fmt.Fprintf(&sb, "%s=%s@%d", hx(e.K), hx(e.V), e.T)
+	}
+	return sb.String()
+}
+
+func (s *seq) insert() {
+	if s.r.IntN(8) == 0 {
+		k, v := s.poolKey(), s.value()
+		var err error
+		if !s.guard("Insert", func() { err = s.t.Insert(k, v) }) {
+			return
+		}
+		s.logf("Insert %s=%s -> %s", hx(k), hx(v), errClass(err))
+		s.c.Eval(1)
+		if err != nil {
+			s.violation("tree.Insert/"+unexp(err), fmt.Sprintf("Insert(%s,%s): %v", hx(k), hx(v), err))
+			return
+		}
+		s.m.Set(k, v, s.m.Ts()+1)
+		s.c.Distinct(fmt.Sprintf("d%d/tree.Insert/ok", s.depth))
+		s.afterMutation("Insert")
+		return
+	}
+	bulk, eff := s.genBulk()
+	var err error
+	if !s.guard("BulkInsert", func() { err = s.t.BulkInsert(bulk) }) {
+		return
+	}
+	s.logf("BulkInsert [%s] -> %s", bulkString(bulk), errClass(err))
+	s.c.Eval(1)
+	if err != nil {
+		s.violation("tree.BulkInsert/"+unexp(err), fmt.Sprintf("BulkInsert(%s) at ts %d: %v", bulkString(bulk), s.m.Ts(), err))
+		return
+	}
+	explicit, repeated := false, false
+	seen := map[string]bool{}
+	for _, e := range bulk {
+		explicit = explicit || e.T != 0
+		repeated = repeated || seen[string(e.K)]
+		seen[string(e.K)] = true
+	}
+	if aerr := s.m.Apply(eff); aerr != nil {
+		panic("c10 generator produced an illegal bulk: " + aerr.Error())
+	}
+	sz := "1"
+	if len(bulk) > 1 {
+		sz = "few"
+	}
+	if len(bulk) >= 8 {
+		sz = "many"
+	}
+	s.c.Distinct(fmt.Sprintf("d%d/tree.BulkInsert/n=%s/explicit-ts=%v/repeated=%v/ok", s.depth, sz, explicit, repeated))
+	s.afterMutation("BulkInsert")
+}
+
+// rejected inputs: the call must fail and leave the tree untouched.
+func (s *seq) badInsert() {
+	cur := s.m.Ts()
+	var bulk []*tbtree.KVT
+	var name string
+	switch s.r.IntN(6) {
+	case 0:
+		name, bulk = "empty-bulk", nil
+	case 1:
+		name, bulk = "empty-key", []*tbtree.KVT{{K: s.poolKey(), V: s.value()}, {K: nil, V: s.value()}}
+	case 2:
+		name, bulk = "empty-value", []*tbtree.KVT{{K: s.poolKey(), V: s.value()}, {K: s.poolKey(), V: nil}}
+	case 3:
+		name, bulk = "key-too-long", []*tbtree.KVT{{K: s.poolKey(), V: s.value()}, {K: bytes.Repeat([]byte{'a'}, s.cf.MaxKey+1), V: s.value()}}
+	case 4:
+		name, bulk = "value-too-long", []*tbtree.KVT{{K: s.poolKey(), V: s.value()}, {K: s.poolKey(), V: bytes.Repeat([]byte{'a'}, s.cf.MaxVal+1)}}
+	case 5:
+		if cur == 0 {
+			return
+		}
+		name, bulk = "stale-ts", []*tbtree.KVT{{K: s.poolKey(), V: s.value()}, {K: s.poolKey(), V: s.value(), T: cur - uint64(s.r.IntN(2))*uint64(s.r.Int64N(int64(cur)))}}
+	}
+	var err error
+	if !s.guard("BulkInsert("+name+")", func() { err = s.t.BulkInsert(bulk) }) {
+		return
+	}
+	s.logf("BulkInsert(%s) [%s] -> %s", name, bulkString(bulk), errClass(err))
+	s.c.Eval(1)
+	s.c.Distinct(fmt.Sprintf("tree.BulkInsert/%s/%s", name, errClass(err)))
+	if err == nil {
+		s.violation("tree.BulkInsert/"+name+"-accepted", fmt.Sprintf("BulkInsert(%s) at ts %d succeeded", bulkString(bulk), cur))
+		return
+	}
+	s.afterMutation("rejected BulkInsert(" + name + ")")
+	for i := 0; i < 2 && !s.dead.Load(); i++ {
+		s.checkQuery("tree", "", s.depth, s.t, s.m.Now(), query{kind: 0, key: bulk0Key(bulk, s.poolKey())})
+	}
+}
+
+func bulk0Key(b []*tbtree.KVT, def []byte) []byte {
+	if len(b) > 0 && len(b[0].K) > 0 {
+		return b[0].K
+	}
+	return def
+}
+
+func (s *seq) increaseTs() {
+	cur := s.m.Ts()
+	ts := cur + 1 + uint64(s.r.IntN(4))
+	if s.r.IntN(5) == 0 {
+		ts = cur - min(cur, uint64(s.r.IntN(3)))
+	}
+	var err error
+	if !s.guard("IncreaseTs", func() { err = s.t.IncreaseTs(ts) }) {
+		return
+	}
+	s.logf("IncreaseTs %d (cur %d) -> %s", ts, cur, errClass(err))
+	s.c.Eval(1)
+	s.c.Distinct(fmt.Sprintf("d%d/tree.IncreaseTs/forward=%v/%s", s.depth, ts > cur, errClass(err)))
+	if ts <= cur {
+		if err == nil {
+			s.violation("tree.IncreaseTs/backwards-accepted", fmt.Sprintf("IncreaseTs(%d) succeeded at ts %d", ts, cur))
+			return
+		}
+	} else {
+		if err != nil {
+			s.violation("tree.IncreaseTs/"+unexp(err), fmt.Sprintf("IncreaseTs(%d) at ts %d: %v", ts, cur, err))
+			return
+		}
+		s.m.AdvanceTs(ts)
+	}
+	s.afterMutation("IncreaseTs")
+}
+
+func (s *seq) flush() {
+	var err error
+	var what string
+	switch x := s.r.IntN(10); {
+	case x == 0:
+		what = "Sync"
+		if !s.guard(what, func() { err = s.t.Sync() }) {
+			return
+		}
+	case x == 1:
+		what = "Flush"
+		if !s.guard(what, func() { _, _, err = s.t.Flush() }) {
+			return
+		}
+	case x == 2:
+		pct := pick(s.r, float32(-1), 100.5, 1000)
+		what = fmt.Sprintf("FlushWith(%v)", pct)
+		if !s.guard(what, func() { _, _, err = s.t.FlushWith(pct, s.r.IntN(2) == 0) }) {
+			return
+		}
+		s.logf("%s -> %s", what, errClass(err))
+		s.c.Eval(1)
+		s.c.Distinct("tree.FlushWith/bad-percentage/" + errClass(err))
+		if err == nil {
+			s.violation("tree.FlushWith/bad-percentage-accepted", what+" succeeded")
+			return
+		}
+		s.afterMutation(what)
+		return
+	default:
+		pct := pick(s.r, float32(0), 0, 0.1, 5, 33.3, 50, 99, 100, 100)
+		synced := s.r.IntN(3) == 0
+		what = fmt.Sprintf("FlushWith(%v,%v)", pct, synced)
+		if !s.guard(what, func() { _, _, err = s.t.FlushWith(pct, synced) }) {
+			return
+		}
+		s.c.Distinct(fmt.Sprintf("d%d/tree.FlushWith/cleanup=%v/synced=%v/snaps=%v/%s", s.depth, pct > 0, synced, len(s.snaps) > 0, errClass(err)))
+	}
+	s.logf("%s -> %s", what, errClass(err))
+	s.c.Eval(1)
+	if err != nil {
+		s.violation("tree.Flush/"+unexp(err), fmt.Sprintf("%s: %v", what, err))
+		return
+	}
+	s.afterMutation(what)
+}
+
+func (s *seq) compact() {
+	var ts uint64
+	var err error
+	tsBefore := s.m.Ts()
+	seen := map[uint64]bool{tsBefore: true}
+	if s.conc && s.r.IntN(2) == 0 {
+		// background compaction while the writer proceeds
+		done := make(chan struct{})
+		var panicked bool
+		var psig, ptext string
+		go func() {
+			defer close(done)
+			panicked, psig, ptext = fw.Guard(func() { ts, err = s.t.Compact() })
+		}()
+		n := 1 + s.r.IntN(4)
+		for i := 0; i < n && !s.dead.Load(); i++ {
+			runtime.Gosched()
+			switch s.r.IntN(4) {
+			case 0:
+				s.flush()
+			case 1:
+				s.increaseTs()
+			default:
+				s.insert()
+			}
+			seen[s.m.Ts()] = true
+		}
+		<-done
+		if panicked {
+			s.violation(panicSig(psig, ptext), "Compact (background): "+ptext)
+			return
+		}
+		s.logf("Compact (background, ts %d..%d) -> ts=%d %v", tsBefore, s.m.Ts(), ts, err)
+	} else {
+		if !s.guard("Compact", func() { ts, err = s.t.Compact() }) {
+			return
+		}
+		s.logf("Compact (ts %d) -> ts=%d %v", tsBefore, ts, err)
+	}
+	if s.dead.Load() {
+		return
+	}
+	s.c.Eval(1)
+	s.c.Distinct(fmt.Sprintf("d%d/tree.Compact/snaps=%v/%s", s.depth, len(s.snaps) > 0, errClass(err)))
+	if err != nil {
+		// threshold not reached, target folder of the same timestamp already there, ...: nothing is claimed
+		s.afterMutation("failed Compact")
+		return
+	}
+	if !seen[ts] {
+		s.violation("tree.Compact/unknown-ts", fmt.Sprintf("Compact reported ts %d, the tree went through %v", ts, seen))
+		return
+	}
+	s.compactTs = ts
+	s.c.Count("compactions", 1)
+	s.afterMutation("Compact")
+}
+
+func (s *seq) open(phase string) bool {
+	var err error
+	if !s.guard("Open", func() { s.t, err = tbtree.Open(s.dir, s.cf.opts()) }) {
+		return false
+	}
+	if err != nil {
+		s.t = nil
+		s.violation("tree.Open/"+unexp(err)+phaseSuffix(phase), fmt.Sprintf("Open: %v", err))
+		return false
+	}
+	return true
+}
+
+func phaseSuffix(p string) string {
+	if p == "" {
+		return ""
+	}
+	return "@" + p
+}
+
+func (s *seq) reopen() {
+	// Close is refused while snapshots are open
+	if len(s.snaps) > 0 && s.r.IntN(2) == 0 {
+		var err error
+		if !s.guard("Close", func() { err = s.t.Close() }) {
+			return
+		}
+		s.c.Eval(1)
+		s.c.Distinct("tree.Close/snapshots-open/" + errClass(err))
+		s.logf("Close with %d snapshots -> %s", len(s.snaps), errClass(err))
+		if !errors.Is(err, tbtree.ErrSnapshotsNotClosed) {
+			s.violation("tree.Close/snapshots-open-accepted", fmt.Sprintf("Close with %d open snapshots returned %v", len(s.snaps), err))
+			return
+		}
+		s.afterMutation("refused Close")
+		if s.dead.Load() {
+			return
+		}
+	}
+	for len(s.snaps) > 0 {
+		if !s.closeSnapshot(0, false) {
+			return
+		}
+	}
+	var err error
+	if !s.guard("Close", func() { err = s.t.Close() }) {
+		return
+	}
+	s.logf("Close -> %s", errClass(err))
+	if err != nil {
+		s.violation("tree.Close/"+unexp(err), fmt.Sprintf("Close: %v", err))
+		return
+	}
+	if s.r.IntN(8) == 0 { // a closed tree refuses everything
+		var e1, e2 error
+		s.guard("Get on closed tree", func() { _, _, _, e1 = s.t.Get(s.poolKey()); e2 = s.t.Insert(s.poolKey(), []byte{1}) })
+		s.c.Eval(1)
+		if !errors.Is(e1, tbtree.ErrAlreadyClosed) || !errors.Is(e2, tbtree.ErrAlreadyClosed) {
+			s.violation("tree.closed/operation-accepted", fmt.Sprintf("Get / Insert on a closed tree returned %v / %v", e1, e2))
+			return
+		}
+	}
+	phase := "reopen"
+	if s.compactTs != 0 {
+		// the compacted tree is what a restart loads: newer versions are gone, the caller re-inserts them
+		phase = "compact-reopen"
+		s.m.TruncateAfter(s.compactTs)
+		s.compactTs = 0
+	}
+	if s.r.IntN(2) == 0 {
+		s.cf.tune(s.r)
+	}
+	if !s.open(phase) {
+		return
+	}
+	s.logf("Open (%s) model ts=%d keys=%d cfg=%+v", phase, s.m.Ts(), s.m.Len(), s.cf)
+	s.c.Count("reopens", 1)
+	var ts uint64
+	s.guard("Ts", func() { ts = s.t.Ts() })
+	s.c.Eval(1)
+	if ts != s.m.Ts() {
+		s.violation("tree.Ts/mismatch@"+phase, fmt.Sprintf("after %s the tree is at ts %d, the model at %d", phase, ts, s.m.Ts()))
+		return
+	}
+	s.c.Distinct(fmt.Sprintf("d%d/tree.Open/%s/keys=%v", s.depth, phase, s.m.Len() > 0))
+	// a few direct reads first (the root is not yet flushed / cached), then everything
+	for i := 0; i < 4; i++ {
+		if !s.checkQuery("tree", phase, s.depth, s.t, s.m.Now(), s.genQuery(s.r, s.m.Now(), s.m.Ts())) {
+			return
+		}
+	}
+	var snap *tbtree.Snapshot
+	if !s.guard("Snapshot", func() { snap, err = s.t.Snapshot() }) {
+		return
+	}
+	if err != nil {
+		s.violation("tree.Snapshot/"+unexp(err)+"@"+phase, err.Error())
+		return
+	}
+	ss := &snapState{s: snap, ts0: snap.Ts(), depth: s.depth, frozen: s.m.CloneAt(s.m.Ts())}
+	if ss.ts0 != s.m.Ts() {
+		s.violation("snapshot.Ts/out-of-bounds@"+phase, fmt.Sprintf("first snapshot after %s is at ts %d, the model at %d", phase, ss.ts0, s.m.Ts()))
+		snap.Close()
+		return
+	}
+	ok := s.fullCheck("tree", phase, ss)
+	s.guard("Snapshot.Close", func() { snap.Close() })
+	if !ok {
+		return
+	}
+}
+
+func (s *seq) syncSnapshot() {
+	// holds the tree's read lock until closed: only reads on it in between
+	var snap *tbtree.Snapshot
+	var err error
+	if !s.guard("SyncSnapshot", func() { snap, err = s.t.SyncSnapshot() }) {
+		return
+	}
+	s.logf("SyncSnapshot -> %s", errClass(err))
+	if err != nil {
+		s.violation("tree.SyncSnapshot/"+unexp(err), err.Error())
+		return
+	}
+	ss := &snapState{s: snap, ts0: snap.Ts(), depth: s.depth, frozen: s.m}
+	defer func() {
+		for _, rs := range ss.readers {
+			s.guard("Reader.Close", func() { rs.rd.Close() })
+		}
+		var cerr error
+		s.guard("SyncSnapshot.Close", func() { cerr = snap.Close() })
+		if cerr != nil && !s.dead.Load() {
+			s.violation("syncsnapshot.Close/"+unexp(cerr), cerr.Error())
+		}
+	}()
+	s.c.Eval(1)
+	if ss.ts0 != s.m.Ts() {
+		s.violation("syncsnapshot.Ts/mismatch", fmt.Sprintf("SyncSnapshot is at ts %d, the model at %d", ss.ts0, s.m.Ts()))
+		return
+	}
+	for i := 0; i < 3 && !s.dead.Load(); i++ {
+		switch s.r.IntN(3) {
+		case 0:
+			s.checkQuery("syncsnapshot", "", s.depth, snap, s.m.Now(), s.genQuery(s.r, s.m.Now(), s.m.Ts()))
+		case 1:
+			if rs := s.newReader(s.r, "syncsnapshot", "", ss); rs != nil {
+				ss.readers = append(ss.readers, rs)
+				s.advance("syncsnapshot", "", ss, rs, -1)
+			}
+		case 2:
+			s.historyReader(s.r, "syncsnapshot", "", ss)
+		}
+	}
+}
+
+// burst: reader goroutines on open snapshots while the writer proceeds (thorough tier).
+func (s *seq) burst() {
+	if len(s.snaps) == 0 {
+		s.openSnapshot()
+		if s.dead.Load() || len(s.snaps) == 0 {
+			return
+		}
+	}
+	var wg sync.WaitGroup
+	ng := 0
+	for _, ss := range s.snaps {
+		for g := 0; g < 1+s.r.IntN(2) && ng < 6; g++ {
+			ng++
+			gr := rand.New(rand.NewPCG(s.r.Uint64(), s.r.Uint64()))
+			steps := 10 + s.r.IntN(40)
+			first := g == 0
+			own := &snapState{s: ss.s, ts0: ss.ts0, frozen: ss.frozen, depth: ss.depth, id: ss.id, stale: true}
+			wg.Add(1)
+			go func() {
+				defer wg.Done()
+				for i := 0; i < steps && !s.dead.Load(); i++ {
+					if first && gr.IntN(8) == 0 {
+						// NewHistoryReader registers the reader under the snapshot's read lock:
+						// a single goroutine per snapshot uses it
+						s.historyReader(gr, "snapshot", "concurrent", own)
+						continue
+					}
+					switch gr.IntN(3) {
+					case 0:
+						rs := s.newReader(gr, "snapshot", "concurrent", own)
+						if rs == nil {
+							continue
+						}
+						s.advance("snapshot", "concurrent", own, rs, -1)
+						s.guard("Reader.Close", func() { rs.rd.Close() })
+					default:
+						s.checkQuery("snapshot", "concurrent", own.depth, own.s, own.frozen.Now(), s.genQuery(gr, own.frozen.Now(), own.ts0))
+					}
+				}
+			}()
+		}
+	}
+	s.logf("burst: %d reader goroutines on %d snapshots", ng, len(s.snaps))
+	s.c.Count("reader_goroutines", int64(ng))
+	// the writer proceeds; snapshots in the burst are not touched by this goroutine
+	held := s.snaps
+	s.snaps = nil
+	s.held = len(held)
+	n := 3 + s.r.IntN(12)
+	for i := 0; i < n && !s.dead.Load(); i++ {
+		switch x := s.r.IntN(10); {
+		case x < 6:
+			s.insert()
+		case x < 7:
+			s.increaseTs()
+		case x < 9:
+			s.flush()
+		default:
+			if len(s.snaps) < 2 {
+				s.openSnapshot()
+			}
+		}
+	}
+	wg.Wait()
+	for _, ss := range held {
+		ss.stale = true
+	}
+	s.snaps = append(held, s.snaps...)
+	s.held = 0
+	if !s.dead.Load() {
+		s.afterMutation("burst")
+	}
+}
+
+// ---------------------------------------------------------------- the sequence
+
+func (s *seq) run(nops int) {
+	s.cf = genCfg(s.r)
+	s.buildPool()
+	s.m = kvmodel.New()
+	os.RemoveAll(s.dir)
+	s.logf("sequence %d cfg=%+v pool=%d", s.id, s.cf, len(s.pool))
+	if !s.open("") {
+		return
+	}
+	defer func() {
+		if s.t == nil {
+			return
+		}
+		fw.Guard(func() {
+			for _, ss := range s.snaps {
+				for _, rs := range ss.readers {
+					rs.rd.Close()
+				}
+				ss.s.Close()
+			}
+			s.t.Close()
+		})
+	}()
+	for op := 0; op < nops && !s.dead.Load(); op++ {
+		x := s.r.IntN(100)
+		// the first part of a sequence fills the tree
+		if op < nops/8 && x >= 40 && x < 80 {
+			x = 0
+		}
+		switch {
+		case x < 30:
+			s.insert()
+		case x < 34:
+			s.increaseTs()
+		case x < 36:
+			s.badInsert()
+		case x < 46:
+			for i := 0; i < 3 && !s.dead.Load(); i++ {
+				s.checkQuery("tree", "", s.depth, s.t, s.m.Now(), s.genQuery(s.r, s.m.Now(), s.m.Ts()))
+			}
+		case x < 54:
+			s.openSnapshot()
+		case x < 59:
+			if len(s.snaps) > 0 {
+				s.closeSnapshot(s.r.IntN(len(s.snaps)), s.r.IntN(3) == 0)
+			}
+		case x < 72:
+			if len(s.snaps) > 0 {
+				s.probeSnapshot(s.r, s.snaps[s.r.IntN(len(s.snaps))], 4, true)
+			}
+		case x < 75:
+			if len(s.snaps) > 0 {
+				ss := s.snaps[s.r.IntN(len(s.snaps))]
+				s.historyReader(s.r, "snapshot", ss.phase(), ss)
+			}
+		case x < 78:
+			if len(s.snaps) > 0 {
+				s.localSet(s.snaps[s.r.IntN(len(s.snaps))])
+			}
+		case x < 81:
+			// reset a reader and read it again from the start
+			if len(s.snaps) > 0 {
+				ss := s.snaps[s.r.IntN(len(s.snaps))]
+				if len(ss.readers) > 0 {
+					rs := ss.readers[s.r.IntN(len(ss.readers))]
+					var err error
+					if s.guard("Reader.Reset", func() { err = rs.rd.Reset() }) {
+						if err != nil {
+							s.violation("snapshot.Reader.Reset/"+unexp(err), err.Error())
+							break
+						}
+						s.logf("reader reset on snapshot #%d %s pos=%d", ss.id, specString(rs.spec), rs.pos)
+						rs.resets++
+						rs.pos = 0
+						s.advance("snapshot", ss.phase(), ss, rs, 1+s.r.IntN(5))
+					}
+				}
+			}
+		case x < 88:
+			s.flush()
+		case x < 90:
+			s.compact()
+		case x < 93:
+			s.reopen()
+		case x < 95:
+			s.syncSnapshot()
+		default:
+			if s.conc {
+				s.burst()
+			} else {
+				s.insert()
+			}
+		}
+	}
+	if s.dead.Load() {
+		return
+	}
+	// final: everything closed, reopened and compared once more
+	s.reopen()
+	s.c.Count("ops", int64(nops))
+}
+
+// ---------------------------------------------------------------- entry point
+
+func Run(c *fw.Ctx) {
+	c.Rule = "PRNG sequences of BulkInsert/Insert/IncreaseTs/FlushWith/Sync/Compact/Close+reopen on embedded/tbtree with tiny nodes, caches and files; " +
+		"every Get/GetBetween/History/GetWithPrefix/Reader/HistoryReader answer of the tree equals kvmodel's current state and every answer of a snapshot equals " +
+		"the state frozen at snapshot.Ts() (re-sampled after every later mutation); after reopen the tree equals the model, after Compact+reopen the model at the reported ts. " +
+		"distinct = tree depth x operation x argument/reader-spec shape x outcome class, as observed"
+	c.Assume("kvmodel (multi-version ordered map) is the specification; it passes its own self-check")
+	c.Assume("inputs respect BulkInsert's documented precondition: per key, timestamps do not decrease inside one bulk (a failed insertion rolls the tree back to its last flushed root by design)")
+	c.Assume("GetWithPrefix is only asked with neq empty, equal to the prefix or below it; ReaderSpec.Offset with IncludeHistory counts keys, as coded")
+	c.Assume("limits (ErrorToManyActiveSnapshots, ErrCompactionThresholdNotReached, failed Compact) are accepted whenever returned")
+	if err := kvmodel.SelfCheck(); err != nil {
+		c.Inconclusive(err.Error())
+		return
+	}
+	nseq := c.N(40, 1000)
+	nops := c.N(400, 1500)
+	only := -1
+	if v := os.Getenv("VERIF_C10_SEQ"); v != "" {
+		only, _ = strconv.Atoi(v)
+	}
+	workers := runtime.GOMAXPROCS(0)
+	if workers > 16 {
+		workers = 16
+	}
+	jobs := make(chan int)
+	var wg sync.WaitGroup
+	var maxDepth sync.Map
+	for w := 0; w < workers; w++ {
+		base := c.Dir(fmt.Sprintf("w%d", w))
+		wg.Add(1)
+		go func() {
+			defer wg.Done()
+			for i := range jobs {
+				s := &seq{c: c, id: i, r: c.Rand(fmt.Sprintf("c10/seq/%d", i)), dir: filepath.Join(base, "t"), conc: c.Thorough()}
+				t0 := time.Now()
+				panicked, sig, text := fw.Guard(func() { s.run(nops) })
+				if os.Getenv("VERIF_C10_TIMING") != "" { // diagnostics only, never part of a verdict
+					fmt.Fprintf(os.Stderr, "seq %d: %.1fs depth=%d %+v\n", i, time.Since(t0).Seconds(), s.maxDepth, s.cf)
+				}
+				if panicked {
+					if strings.Contains(text, "c10 generator") || !strings.Contains(text, "codenotary/immudb") {
+						c.Inconclusive(fmt.Sprintf("sequence %d: monitor fault: %s", i, text))
+					} else {
+						s.violation(panicSig(sig, text), text)
+					}
+				}
+				maxDepth.Store(i, s.maxDepth)
+				os.RemoveAll(s.dir)
+			}
+		}()
+	}
+	for i := 0; i < nseq; i++ {
+		if only >= 0 && i != only {
+			continue
+		}
+		jobs <- i
+	}
+	close(jobs)
+	wg.Wait()
+	deepest, hist := 0, map[int]int{}
+	maxDepth.Range(func(_, v any) bool {
+		d := v.(int)
+		hist[d]++
+		if d > deepest {
+			deepest = d
+		}
+		return true
+	})
+	c.Set("sequences", nseq)
+	c.Set("ops_per_sequence", nops)
+	c.Set("max_tree_depth", deepest)
+	c.Set("sequences_by_max_depth", fmt.Sprint(hist))
+	c.Sample(map[string]any{"what": "deepest tree observed (immudb_btree_depth gauge)", "depth": deepest})
+}
